@@ -1,4 +1,5 @@
 import HvsrVerif.Proofs.StatsLemmas
+import HvsrVerif.Proofs.ScaleLemmas
 /-!
 # C06 — Frequency-domain window rejection follows Cox et al. (2020) and terminates
 
@@ -130,6 +131,112 @@ theorem fdwra_returns_count_at_limit (p : FdwraParams ℝ) (s : HvTrad ℝ)
     ∃ s' trs, fdwraTrad p s = .ok (p.maxIter, s', trs) := by
   obtain ⟨s', trs, hl⟩ := loop_limit p p.maxIter 0 _ h
   exact ⟨s', trs, by unfold fdwraTrad; simpa using hl⟩
+
+/-! ### rescaling all amplitudes -/
+
+theorem iter_scale (p : FdwraParams ℝ) (c : ℝ) (hc : 0 < c) (s : HvTrad ℝ) (hpos : ∀ r ∈ s.rows, ∀ v ∈ r, 0 < v) :
+    fdwraIter p (scaleState c s) = (fdwraIter p s).map (fun x => (scaleState c x.1, x.2.1, x.2.2)) := by
+  unfold fdwraIter
+  obtain ⟨e1, e2, _⟩ := scale_stats p.dFn p.n c s
+  have e3 := (scale_stats p.dFn (-p.n) c s).2.2
+  have e4 := (scale_stats p.dFn p.n c s).2.2
+  simp only [e1, e2, e3, e4, scale_meanCurvePeak p.dMc c hc s hpos]
+  cases hb : s.meanCurvePeak p.dMc with
+  | error e => rfl
+  | ok pb =>
+    obtain ⟨fb, ab⟩ := pb
+    simp only [Except.map, scale_apply]
+    have hpos' : ∀ r ∈ (fdwraApply (s.nthStdFn (-p.n) p.dFn) (s.nthStdFn p.n p.dFn) s).rows, ∀ v ∈ r, 0 < v := by
+      rw [apply_rows]; exact hpos
+    obtain ⟨f1, f2, _⟩ := scale_stats p.dFn p.n c (fdwraApply (s.nthStdFn (-p.n) p.dFn) (s.nthStdFn p.n p.dFn) s)
+    simp only [f1, f2, scale_meanCurvePeak p.dMc c hc _ hpos']
+    cases ha : (fdwraApply (s.nthStdFn (-p.n) p.dFn) (s.nthStdFn p.n p.dFn) s).meanCurvePeak p.dMc with
+    | error e => rfl
+    | ok pa =>
+      obtain ⟨fa, aa⟩ := pa
+      simp only [Except.map]
+      split <;> rfl
+
+theorem iter_rows (p : FdwraParams ℝ) (s s' : HvTrad ℝ) (b : Bool) (tr : FdwraTrace ℝ)
+    (h : fdwraIter p s = .ok (s', b, tr)) : s'.rows = s.rows := by
+  unfold fdwraIter at h
+  simp only at h
+  split at h
+  · cases h
+  · split at h
+    · cases h
+    · split at h
+      · injection h with h; injection h with h1 _; subst h1; rfl
+      · injection h with h; injection h with h1 _; subst h1; rfl
+
+theorem loop_scale (p : FdwraParams ℝ) (c : ℝ) (hc : 0 < c) : ∀ (fuel done : Nat) (s : HvTrad ℝ),
+    (∀ r ∈ s.rows, ∀ v ∈ r, 0 < v) →
+    fdwraLoop p fuel done (scaleState c s) = (fdwraLoop p fuel done s).map (fun x => (x.1, scaleState c x.2.1, x.2.2)) := by
+  intro fuel
+  induction fuel with
+  | zero => intro done s _; rfl
+  | succ fuel ih =>
+    intro done s hpos
+    unfold fdwraLoop
+    rw [iter_scale p c hc s hpos]
+    cases hit : fdwraIter p s with
+    | error e => rfl
+    | ok x =>
+      obtain ⟨s1, stop, tr⟩ := x
+      simp only [Except.map]
+      cases stop
+      · simp only [Bool.false_eq_true, if_false]
+        have hpos1 : ∀ r ∈ s1.rows, ∀ v ∈ r, 0 < v := by rw [iter_rows p s s1 false tr hit]; exact hpos
+        rw [ih (done + 1) s1 hpos1]
+        cases fdwraLoop p fuel (done + 1) s1 with
+        | error e => rfl
+        | ok y => obtain ⟨k, s2, trs⟩ := y; rfl
+      · rfl
+
+theorem updatePeaks_scale (r : Range ℝ) (c : ℝ) (hc : 0 < c) (s : HvTrad ℝ) :
+    updatePeaks r false (scaleState c s) = scaleState c (updatePeaks r false s) := by
+  have h1 : ∀ t : HvTrad ℝ, updatePeaks r false t = recomputePeaks r t := by
+    intro t; unfold updatePeaks; split <;> simp
+  rw [h1, h1]
+  unfold recomputePeaks scaleState
+  simp only [List.map_map, HvTrad.mk.injEq, true_and]
+  have hpk : List.map ((fun row => findPeakBounded s.freq row r) ∘ fun r => List.map (fun x => c * x) r) s.rows
+      = List.map ((fun p => Option.map (fun q => (q.1, c * q.2)) p) ∘ fun row => findPeakBounded s.freq row r) s.rows := by
+    apply List.map_congr_left
+    intro row _
+    simp only [Function.comp]
+    exact findPeakBounded_scale c hc s.freq row r
+  have hhas : List.map (Option.isSome ∘ (fun row => findPeakBounded s.freq row r) ∘ fun r => List.map (fun x => c * x) r) s.rows
+      = List.map (Option.isSome ∘ fun row => findPeakBounded s.freq row r) s.rows := by
+    apply List.map_congr_left
+    intro row _
+    simp only [Function.comp]
+    rw [findPeakBounded_scale c hc]
+    cases findPeakBounded s.freq row r <;> rfl
+  refine ⟨hpk, ?_, hhas⟩
+  rw [hhas]
+  split
+  · simp [Function.comp]
+  · rfl
+
+/-- **Rescaling all amplitudes leaves decisions and iteration count unchanged.** For positive curves and `c > 0`:
+running the rejection on the rescaled object performs the same number of iterations, produces the same trace of
+statistics and ends with the same masks (the resulting object is the rescaled result). -/
+theorem fdwra_scale (p : FdwraParams ℝ) (c : ℝ) (hc : 0 < c) (s : HvTrad ℝ) (hpos : ∀ r ∈ s.rows, ∀ v ∈ r, 0 < v) :
+    fdwraTrad p (scaleState c s) = (fdwraTrad p s).map (fun x => (x.1, scaleState c x.2.1, x.2.2)) ∧
+    ∀ k s' trs, fdwraTrad p s = .ok (k, s', trs) →
+      ∃ s'', fdwraTrad p (scaleState c s) = .ok (k, s'', trs) ∧ s''.vWin = s'.vWin ∧ s''.vPeak = s'.vPeak := by
+  have hmain : fdwraTrad p (scaleState c s) = (fdwraTrad p s).map (fun x => (x.1, scaleState c x.2.1, x.2.2)) := by
+    unfold fdwraTrad
+    rw [updatePeaks_scale p.range c hc s]
+    apply loop_scale p c hc
+    have : (updatePeaks p.range false s).rows = s.rows := by
+      unfold updatePeaks; split <;> [split; skip] <;> simp [recomputePeaks]
+    rw [this]; exact hpos
+  refine ⟨hmain, ?_⟩
+  intro k s' trs h
+  rw [hmain, h]
+  exact ⟨scaleState c s', rfl, rfl, rfl⟩
 
 /-- the convergence limits are the published `0.01` / `0.01` -/
 theorem limits_value : (lit fdwraLimits.1 : ℝ) = 0.01 ∧ (lit fdwraLimits.2 : ℝ) = 0.01 := by
